@@ -1,5 +1,6 @@
 from runner import Property, Engine
 import allocgen
+import allocdsagen
 
 PROP = Property(
     pid="C14",
@@ -8,7 +9,11 @@ PROP = Property(
     engines=[Engine(name="allocfail", c_srcs=allocgen.C_SRCS,
                     ml_srcs=["ocaml/gen/AllocModel.ml", "ocaml/allocfail_drv.ml"],
                     gen=allocgen.gen, wraps=allocgen.WRAPS, env=allocgen.ENV,
-                    n_quick=0, n_thorough=0, sep=None, search_factor=1, timeout=1500)],
+                    n_quick=0, n_thorough=0, sep=None, search_factor=1, timeout=1500),
+             Engine(name="allocdsa", c_srcs=allocdsagen.C_SRCS,
+                    ml_srcs=["ocaml/gen/AllocModel.ml", "ocaml/allocdsa_drv.ml"],
+                    gen=allocdsagen.gen, wraps=allocdsagen.WRAPS,
+                    n_quick=0, n_thorough=0, sep=None, search_factor=1, timeout=900)],
     trusted_base=["Coq 8.16.1 kernel + coqc", "extraction (ExtrOcamlBasic) + OCaml 4.13.1",
                   "harness/sim.c (channel simulator, counting/failing allocator), harness/allocfail_drv.c (call-site tracker), ocaml/allocfail_drv.ml, gen/allocgen.py",
                   "clang 14 ASan/UBSan; LeakSanitizer replaced by the allocator ledger (every block, not only unreachable ones)"],
